@@ -153,7 +153,7 @@ func TestMulti(t *testing.T) {
 		c := Case{}
 		var kinds []string
 		for i := 0; i < n; i++ {
-			kind := rapid.SampledFrom([]string{"formatted", "formatted", "unformatted", "unformatted", "rejected", "no-final-newline", "model", "model"}).Draw(t, "kind")
+			kind := rapid.SampledFrom([]string{"formatted", "unformatted", "unformatted", "rejected", "no-final-newline", "model", "model", "model", "model"}).Draw(t, "kind")
 			src := all[rapid.IntRange(0, len(all)-1).Draw(t, "prog")].Src
 			f := MultiFile{Name: fmt.Sprintf("f%d.evy", i), Mode: rapid.SampledFrom([]uint32{0o644, 0o600, 0o755, 0o664}).Draw(t, "mode")}
 			switch kind {
